@@ -97,6 +97,14 @@ def _bits(v, w):
     return format(v, "0%db" % w) if w else ""
 
 
+_COMMENT = __import__("re").compile(r"/\*.*?\*/|//[^\n]*", __import__("re").S)
+
+
+def _nows(s):
+    """text of a call without comments and whitespace (what the program printer would have written)"""
+    return "".join(_COMMENT.sub("", s).split())
+
+
 class Case:
     """One translation-validation obligation."""
 
@@ -359,7 +367,7 @@ def _check_case(case, res):
             res["tracked"] = len(d.get("tracked", []))
             res["marker_kinds"] = sorted(set((n["marker"]["kind"].split("(")[0], n["marker"]["text"]) for n in d["nodes"] if "marker" in n))
             res["taps_nonconst"] = sum(1 for (_, _, tag, _) in m.taps if not (tag.op == "c" and tag.val == 0))
-            nows = lambda s: "".join(s.split())
+            nows = _nows
             dag_markers = set((n["marker"]["kind"].split("(")[0], nows(n["marker"]["text"])) for n in d["nodes"] if "marker" in n)
             res["dag_markers"] = sorted(dag_markers)
             res["unmarked_assertl"] = sum(1 for n in d["nodes"] if n["k"] == "assertl" and "marker" not in n and not n.get("failcmr"))
@@ -588,7 +596,7 @@ def _marker_values(case, text, md, spec, f_spec, solver, res, rng):
         return None, None
     taps = m.tap_conditions()
     pr = S.Printer(case.prog.aliases)
-    nows = lambda x: "".join(x.split())
+    nows = _nows
     by_site = {}
     for kind, e, aty, bits in spec.calls:
         if kind in VALUE_KINDS:
